@@ -29,7 +29,7 @@ BV_SAFE = 1 << 62
 
 _DEFAULT_FAMILY = ["int"]
 REALISE_DIVISORS = [False]
-MAX_SHIFT = [16]
+MAX_SHIFT = [12]
 POW_EXP_RANGE = (-2, 3)
 
 
